@@ -225,5 +225,8 @@ Fixpoint bump (f : nat) (w : list nat) : list nat :=
   | x :: r, 0 => S x :: r
   | x :: r, S k => x :: bump k r
   end.
+(* all file states of a run that starts in w and sees the edits [envs] *)
+Fixpoint worlds_of (w : list nat) (envs : list nat) : list (list nat) :=
+  match envs with [] => [w] | e :: r => w :: worlds_of (bump e w) r end.
 (* the data a call must return when the files are in state w *)
 Definition snapshot_of (tree : list nat) (w : list nat) : list (nat * nat) := map (fun f => (f, nth f w 0)) tree.
